@@ -151,3 +151,19 @@ def find_loops(node):
         visit_AsyncFunctionDef = visit_FunctionDef
     V().visit(node)
     return out
+
+
+def locate_nested(fnode, name):
+    """A function defined inside another function (structural locator by name)."""
+    for n in ast.walk(fnode):
+        if isinstance(n, (ast.FunctionDef, ast.AsyncFunctionDef)) and n is not fnode and n.name == name:
+            return n
+    raise KeyError('locator does not resolve: nested function %s' % name)
+
+
+def locate_loop(fnode, pred):
+    """The first loop of fnode (source order) satisfying pred(loop_node)."""
+    for l in find_loops(fnode):
+        if pred(l):
+            return l
+    raise KeyError('locator does not resolve: loop')
